@@ -220,7 +220,16 @@ def rule_d(ctx: Ctx) -> None:
     for w in ws:
         row = TABLE.get((w.func.qualname, w.attr)) or TABLE.get((w.func.qualname, '*'))
         if row is None:
-            continue   # reported by C10.a
+            # not in the reviewed table (C10.a reports the residue): for threads the question is whether the write is serialised
+            enc = enclosing_map(w.func.node)
+            locked = any(isinstance(a, ast.With) and any('lock' in text(i.context_expr).lower() for i in a.items)
+                         for a in ancestors(w.node, enc))
+            ctx.ob(rule, f'{w.func.qualname.split(".", 1)[-1]}: unreviewed validation-time write `{w.target[:40]}` to shared state is made under a lock',
+                   w.func.loc(w.node), locked,
+                   f'state of {w.owner_class} ({w.owner_expr}) is shared by every thread that validates with this schema; the write is neither '
+                   'in the reviewed table of atomic/idempotent stores nor inside a `with <lock>` block: two threads interleave on it',
+                   key=f'{w.func.qualname}|unreviewed|{w.attr}|{w.kind}|{w.target[:30]}')
+            continue
         n += 1
         ok = row[0] in CLASS
         single = True
